@@ -287,9 +287,61 @@ pub fn gen_case(r: &mut Rng, out: &mut String, with_queries: bool) {
         writeln!(out, "extend b0{}", many_chunk_values(r)).unwrap();
         writeln!(out, "dump b0").unwrap();
     }
+    // values known to have been inserted (single inserts and the two ends of inserted ranges), for removals / queries whose
+    // bounds sit EXACTLY on such a value or on the edge of its chunk
+    let mut marks: Vec<u64> = Vec::new();
     for _ in 0..nops {
+        let from = out.len();
         mutator(r, out, nkeys);
+        for line in out[from..].lines() {
+            let t: Vec<&str> = line.split(' ').collect();
+            match t.as_slice() {
+                ["insert", "b0", v] => marks.extend(v.parse::<u64>().ok()),
+                ["insert_range", "b0", lo, hi] => {
+                    let inc = |x: &str, lower: bool| -> Option<u64> {
+                        if let Some(v) = x.strip_prefix("in:") {
+                            v.parse().ok()
+                        } else if let Some(v) = x.strip_prefix("ex:") {
+                            let v: u64 = v.parse().ok()?;
+                            if lower { Some(v + 1) } else { v.checked_sub(1) }
+                        } else {
+                            None
+                        }
+                    };
+                    if let (Some(a), Some(b)) = (inc(lo, true), inc(hi, false)) {
+                        if a <= b && b <= u32::MAX as u64 {
+                            marks.push(a);
+                            marks.push(b);
+                        }
+                    }
+                }
+                _ => {}
+            }
+        }
         writeln!(out, "dump b0").unwrap();
+        if !marks.is_empty() && r.chance(1, 8) {
+            let a = *r.pick(&marks);
+            let b = *r.pick(&marks);
+            let (a, b) = if a <= b { (a, b) } else { (b, a) };
+            let lo = match r.below(5) {
+                0 => "un".to_string(),
+                1 => format!("in:{}", a & !0xFFFF), // the start of a's chunk
+                2 if a > 0 => format!("ex:{}", a - 1),
+                _ => format!("in:{}", a),
+            };
+            let hi = match r.below(5) {
+                0 => "un".to_string(),
+                1 => format!("in:{}", b | 0xFFFF), // the end of b's chunk
+                2 if b < u32::MAX as u64 => format!("ex:{}", b + 1),
+                _ => format!("in:{}", b),
+            };
+            if with_queries {
+                writeln!(out, "contains_range b0 {} {}", lo, hi).unwrap();
+                writeln!(out, "range_cardinality b0 {} {}", lo, hi).unwrap();
+            }
+            writeln!(out, "remove_range b0 {} {}", lo, hi).unwrap();
+            writeln!(out, "dump b0").unwrap();
+        }
         if with_queries && r.chance(1, 3) {
             queries(r, out, "b0", nkeys);
         }
